@@ -43,7 +43,8 @@ theorem dusq_refines_oset_partial (hinj : ∀ a b, cls a = cls b → a = b)
   hrun_refines cls (fun _ => hinj) hk hE hB hvk os n db q hq hfit
 
 /-- ONE REFINEMENT THEOREM for the whole Hold: several queues of one kind at the keys `keys` in one store, histories of
-operations addressed to any of them WITH REOPEN (close, open, fresh objects injected at every key, sync) AT ARBITRARY
+operations addressed to any of them — INCLUDING REJECTED CALLS (`MOp.a`: arguments as passed, `None` / foreign objects at
+any position) — WITH REOPEN (close, open, fresh objects injected at every key, sync) AT ARBITRARY
 POSITIONS.  After every step, for EVERY key: result, in-memory content and durable content are those of independent FIFO
 queues / ordered sets (`specMRun`: durable column = content, reopen = identity, an operation on one key changes no other).
 This contains `durable_mirror`, `reopen_restores` and key independence. -/
@@ -51,9 +52,45 @@ theorem hold_refines (kind : QKind) (hinj : kind = .dusq → ∀ a b, cls a = cl
     (K : Bytes → Prop) (B : Nat) (hG : ∀ k, K k → ExactAt K k B) (hB : B < 16 ^ W)
     (hvk : ∀ k, K k → validKey (suffix k 0) = true) (keys : List Bytes) (hkeys : ∀ k ∈ keys, K k)
     (os : List MOp) (n : Nat) (db : Db) (ms : MS) (σ : St) (hm : MInv K kind keys n db ms) (hσ : ∀ k ∈ keys, σ k = (ms k).mem)
-    (hos : ∀ o ∈ os, ∀ k qo, o = .q k qo → k ∈ keys) (hfit : n + mtotal os ≤ B) :
+    (hos : ∀ o ∈ os, ∀ k, mkey o = some k → k ∈ keys) (hfit : n + mtotal os ≤ B) :
     mrun cls kind keys db ms os = specMRun cls kind keys σ os :=
   mrun_refines cls hinj hG hB hvk keys hkeys os n db ms σ hm hσ hos hfit
+
+/-- REJECTED ⇒ IDENTITY, for every operation: whenever a method refuses its argument (`push(None)` → False; a non-RegDom
+as push / remove argument or at ANY position of an extend|update batch → HierError; `count` of a foreign object → 0) the
+store, the addressed queue and every other queue are exactly as before, and the specification treats the call as the
+identity too (`specM`), so `hold_refines` covers histories in which rejected calls occur anywhere. -/
+theorem rejected_op_is_identity (kind : QKind) (keys : List Bytes) (db : Db) (ms : MS) (σ : St) (k : Bytes) (ao : AOp) (r : QRes)
+    (h : validate ao = .error r) :
+    mstep cls kind keys db ms (.a k ao) = (db, ms, r) ∧ specM cls kind σ (.a k ao) = (σ, r) :=
+  ⟨mstep_rejected cls kind keys db ms k ao r h, by simp only [specM, h]⟩
+
+/-- which calls are rejected: exactly those with a `None` / foreign argument (any position of a batch) -/
+theorem rejected_iff_bad_argument (ao : AOp) :
+    (∃ r, validate ao = .error r) ↔
+      (match ao with
+       | .push a | .remove a | .count a => ∀ b, a ≠ .ok b
+       | .extend as => ∃ a ∈ as, ∀ b, a ≠ .ok b
+       | _ => False) := by
+  cases ao with
+  | push a => cases a <;> simp [validate]
+  | remove a => cases a <;> simp [validate]
+  | count a => cases a <;> simp [validate]
+  | pull e => simp [validate]
+  | clear => simp [validate]
+  | extend as =>
+    simp only [validate]
+    induction as with
+    | nil => simp [argsOk]
+    | cons a as ih =>
+      cases a with
+      | ok b =>
+        simp only [argsOk, List.mem_cons, exists_eq_or_imp]
+        cases h : argsOk as with
+        | none => rw [h] at ih; simp at ih ⊢; exact ih
+        | some bs => rw [h] at ih; simp at ih ⊢; exact ih
+      | none => simp [argsOk]
+      | junk => simp [argsOk]
 
 /-- the specification side of key independence: an operation addressed to `k` leaves every other queue's content alone -/
 theorem spec_other_queue_unchanged (kind : QKind) (σ : St) (k k' : Bytes) (o : QOp) (h : k' ≠ k) :
